@@ -669,6 +669,33 @@ func genFeedExternalLiquidity(g *G) *Op {
 		Liquidity: []ammtypes.ExternalLiquidity{{PoolId: p.PoolId, AmountDepthInfo: info}}}}
 }
 
+// genCreatePool: the admin (who is on the pool creators' allow-list) lists a further pool in the middle of the
+// history: two of the funded denoms, oracle or constant-product.
+func genCreatePool(g *G) *Op {
+	if len(g.S.Pools) >= 4 {
+		return nil
+	}
+	a := g.W.Admin
+	if g.Busy[a.Addr.String()] {
+		return nil
+	}
+	ds := g.W.Scenario.Denoms
+	i := g.Pick("cp/d1", len(ds))
+	j := (i + 1 + g.Pick("cp/d2", len(ds)-1)) % len(ds)
+	d1, d2 := ds[i], ds[j]
+	if d1 > d2 {
+		d1, d2 = d2, d1
+	}
+	amt := func(l string) sdkmath.Int { return sdkmath.NewInt(int64(1_000_000 + g.Int(l, 0, 2_000_000_000))) }
+	fee := []string{"0", "0.001", "0.003", "0.02"}[g.Pick("cp/fee", 4)]
+	w1 := int64([]int{50, 50, 20, 80}[g.Pick("cp/w", 4)])
+	return &Op{Signer: a, Kind: "amm.create_pool", Msg: &ammtypes.MsgCreatePool{Sender: a.Addr.String(),
+		PoolParams: ammtypes.PoolParams{UseOracle: g.Bool("cp/oracle"), SwapFee: sdkmath.LegacyMustNewDecFromStr(fee), FeeDenom: ptypes.BaseCurrency},
+		PoolAssets: []ammtypes.PoolAsset{
+			{Token: sdk.NewCoin(d1, amt("cp/a1")), Weight: sdkmath.NewInt(w1), ExternalLiquidityRatio: sdkmath.LegacyOneDec()},
+			{Token: sdk.NewCoin(d2, amt("cp/a2")), Weight: sdkmath.NewInt(100 - w1), ExternalLiquidityRatio: sdkmath.LegacyOneDec()}}}}
+}
+
 // genSetPortfolio: anyone may ask the tier module to (re)compute an account's portfolio; the resulting
 // membership tier gives that account a discount on swap fees from then on.
 func genSetPortfolio(g *G) *Op {
@@ -1322,7 +1349,7 @@ func genExecuteOrders(g *G) *Op {
 var AllOps = map[string]func(*G) *Op{
 	"amm.swap_in": genSwapIn, "amm.swap_out": genSwapOut, "amm.swap_in_2hop": genSwapIn2, "amm.swap_out_2hop": genSwapOut2,
 	"amm.swap_by_denom": genSwapByDenom, "amm.join": genJoin, "amm.exit": genExit,
-	"bank.send_to_pool": genSendToPool, "bank.send": genSendUser, "bank.send_to_burn": genSendToBurn, "amm.feed_external_liquidity": genFeedExternalLiquidity, "tier.set_portfolio": genSetPortfolio,
+	"bank.send_to_pool": genSendToPool, "bank.send": genSendUser, "bank.send_to_burn": genSendToBurn, "amm.feed_external_liquidity": genFeedExternalLiquidity, "tier.set_portfolio": genSetPortfolio, "amm.create_pool": genCreatePool,
 	"stablestake.bond": genBond, "stablestake.unbond": genUnbond,
 	"leveragelp.open": genLPOpen, "leveragelp.close": genLPClose, "leveragelp.update_stop_loss": genLPUpdateStopLoss,
 	"leveragelp.claim_rewards": genLPClaim, "leveragelp.close_positions": genLPClosePositions,
